@@ -522,6 +522,8 @@ MODULES['C19'] += ['C19Gen', 'C19GenRoot']; AUDITS['C19'] += ['C19Gen', 'C19GenR
 MODULES['C06'] += ['C06GenCustom']; AUDITS['C06'] += ['C06GenCustom']   # process_custom translated from the source (gen/gen_py_smallfn.py)
 MODULES['C17'] += ['C17GenSmall', 'C17GenOwnDir']; AUDITS['C17'] += ['C17GenSmall', 'C17GenOwnDir']   # match_defined / match_placeholder_shown / match_scope / match_own_dir translated from the source (gen/gen_py_smallfn.py)
 MODULES['C11'] += ['C11GenAttrSel']; AUDITS['C11'] += ['C11GenAttrSel']; MODULES['C01'] += ['C11GenAttrSel']; AUDITS['C01'] += ['C11GenAttrSel']   # the decisions of parse_attribute_selector translated from the source (gen/gen_py_attrsel.py)
+MODULES['C01'] += ['C01GenAttrs']; AUDITS['C01'] += ['C01GenAttrs']   # match_attributes translated from the source (gen/gen_py_attrs.py)
+MODULES['C02'] += ['C02GenType']; AUDITS['C02'] += ['C02GenType']   # match_nth_tag_type translated from the source (gen/gen_py_attrs.py)
 MODULES['C13'] += ['C13GenWalk']; AUDITS['C13'] += ['C13GenWalk']   # match_lang: final test, attribute decision and attribute loop of the walk translated from the source (gen/gen_py_langwalk.py)
 MODULES['C02'] += ['C02GenNth', 'C02GenNthTerm']; AUDITS['C02'] += ['C02GenNth']   # the integer bookkeeping of match_nth (init, adjustment loops, main test, advance) translated from the source (gen/gen_py_nth.py)
 MODULES['C06'] += ['C06GenComb']; AUDITS['C06'] += ['C06GenComb']; MODULES['C05'] += ['C06GenComb']; AUDITS['C05'] += ['C06GenComb']   # parse_combinator / parse_has_combinator translated from the source (gen/gen_py_combinators.py)
